@@ -10,6 +10,7 @@
 #include <map>
 #include <string>
 #include <vector>
+#include <memory>
 
 #include <ipr/impl>
 
@@ -111,12 +112,16 @@ namespace {
       int assign;
       std::vector<int> pairs;           // each 0..8 = name*3 + slot
       unsigned observe = 0;             // bit i set: the whole scope is also validated (looked up, selected, read) after step i
+      int twin = 0;                     // 1: a second Lexicon makes every declaration right after this one and is validated too; 2: after every step a
+                                        //    transient Lexicon repeats the history so far, is validated, and dies
       int mode() const { int m = assign; for (int p : pairs) m += p; return m % 3 + 1; }     // address personality, a function of the history
       std::string text() const
       {
          std::string s = "assignment " + std::to_string(assign) + ":";
          for (int p : pairs) s += std::string(" ") + kind_name[assignment[assign][p / 3][p % 3]] + "(" + name_text[p / 3] + ",t" + std::to_string(p % 3) + ")";
          if (observe) s += " observed-after-steps-mask=" + std::to_string(observe);
+         if (twin == 1) s += " [a second Lexicon in lockstep]";
+         if (twin == 2) s += " [a transient Lexicon after every step]";
          return s;
       }
    };
@@ -134,7 +139,7 @@ namespace {
    {
       std::vector<long long> ops(h.pairs.begin(), h.pairs.end());
       rep.violation(key, static_cast<long long>(h.pairs.size()) * 4 + h.assign, what + " [" + h.text() + "]",
-                    vf::JObj{}.str("pass", "C07").num("assign", h.assign).num("observe", h.observe).raw("ops", vf::jarr(ops)).str("history", h.text()).done());
+                    vf::JObj{}.str("pass", "C07").num("assign", h.assign).num("observe", h.observe).num("twin", h.twin).raw("ops", vf::jarr(ops)).str("history", h.text()).done());
       if (verbose) std::printf("  VIOLATION %s: %s\n", key.c_str(), what.c_str());
    }
 
@@ -148,6 +153,9 @@ namespace {
       struct Reset { ~Reset() { vf::env::set_alloc(vf::env::Alloc::Malloc); vf::env::arena_reset(); } } reset;
       World w;
       std::vector<Entry> model;
+      std::unique_ptr<World> second;
+      std::vector<Entry> model2;
+      if (h.twin == 1) second = std::make_unique<World>();
       int step = 0;
       for (int p : h.pairs) {
          Kind k = assignment[h.assign][p / 3][p % 3];
@@ -156,10 +164,30 @@ namespace {
          rep.count("states");
          if (d == nullptr) { fail("C07:declare:null", h, "a declaration factory returned null"); return; }
          model.push_back({ p / 3, p % 3, k, d });
+         if (second) {
+            const ipr::Decl* d2 = second->declare(k, p / 3, p % 3);
+            rep.count("transitions");
+            if (d2 == nullptr) { fail("C07:declare:null", h, "a declaration factory returned null"); return; }
+            model2.push_back({ p / 3, p % 3, k, d2 });
+         }
+         if (h.twin == 2) {
+            World t;
+            std::vector<Entry> mt;
+            for (int j = 0; j <= step; ++j) {
+               const int pj = h.pairs[std::size_t(j)];
+               Kind kj = assignment[h.assign][pj / 3][pj % 3];
+               const ipr::Decl* dj = t.declare(kj, pj / 3, pj % 3);
+               rep.count("transitions");
+               if (dj == nullptr) { fail("C07:declare:null", h, "a declaration factory returned null"); return; }
+               mt.push_back({ pj / 3, pj % 3, kj, dj });
+            }
+            validate(h, t, mt);
+         }
          if ((h.observe >> step) & 1u) { validate(h, w, model); rep.count("intermediate_observations"); }
          ++step;
       }
       validate(h, w, model);
+      if (second) validate(h, *second, model2);
       rep.count("traces");
       if (rep.samples.size() < rep.sample_cap and h.pairs.size() >= 4 and (h.observe != 0 or rep.samples.size() < 2))
          rep.sample(vf::JObj{}.str("history", h.text()).num("declarations", (long long) model.size()).str("address_personality", vf::env::alloc_name(vf::env::Alloc(h.mode()))).done());
@@ -279,6 +307,7 @@ namespace {
                      for (int s = 0; s + 1 < d; ++s) run(Hist{ a, p, 1u << s });      // one deviation: also examined after step s
                      if (d > 2) run(Hist{ a, p, (1u << (d - 1)) - 1u });             // examined after every step
                   }
+                  if (d >= 1 and d <= 4) { run(Hist{ a, p, 0u, 1 }); run(Hist{ a, p, 0u, 2 }); }   // more than one Lexicon
                }
             int i = d - 1;
             while (i >= 0 and ++p[i] == 9) p[i--] = 0;
@@ -689,7 +718,7 @@ int main(int argc, char** argv)
          homogeneous(5);
       }
       else {
-         Hist h{ int(vf::json_int(text, "assign")), std::vector<int>(ops.begin(), ops.end()), unsigned(vf::json_int(text, "observe")) };
+         Hist h{ int(vf::json_int(text, "assign")), std::vector<int>(ops.begin(), ops.end()), unsigned(vf::json_int(text, "observe")), int(vf::json_int(text, "twin")) };
          std::printf("replay C07: %s\n", h.text().c_str());
          run(h);
       }
